@@ -173,7 +173,70 @@ fn gen_kids(r: &mut Rng, o: &GenOpts, depth: usize, n: usize, budget: &mut usize
     }
 }
 
+/// a document that is large in one dimension: depth, width, attributes and declarations on one element (and so prefixes in
+/// scope), or the length of a text and an attribute value — inline buffers, depth caps and batch sizes of 8 … 64 are exceeded
+pub fn gen_big_doc(r: &mut Rng, fragment: bool) -> SDoc {
+    let leaf = |l: &str| SElem { prefix: String::new(), local: l.to_string(), decls: vec![], attrs: vec![], kids: vec![] };
+    let el = match r.below(4) {
+        0 => {
+            // deep: 18 … 30 levels, every level declares another prefix (x0, x1, …) and may use one declared further out;
+            // one of the outermost levels re-declares an inner prefix for another namespace
+            let depth = 18 + r.below(13);
+            let mut n = SElem { prefix: String::new(), local: "a".into(), decls: vec![], attrs: vec![], kids: vec![SNode::Text("x".into())] };
+            for i in 0..depth {
+                let mut decls = vec![(format!("x{}", i % 24), format!("urn:x{}", i % 24))];
+                if i + 3 >= depth && r.chance(1, 2) { let j = r.below(12); if j != i % 24 { decls.push((format!("x{}", j), format!("urn:y{}", j))); } }
+                let mut attrs = vec![];
+                if r.chance(1, 5) { attrs.push(SAttr { prefix: "xml".into(), local: "space".into(), value: r.pick(&["preserve", "default"]).to_string() }); }
+                let prefix = if r.chance(1, 2) { format!("x{}", i % 24) } else { String::new() };
+                let mut kids = vec![];
+                if r.chance(1, 2) { kids.push(SNode::Text(if r.chance(1, 2) { " \n".into() } else { "l".into() })); }
+                kids.push(SNode::Elem(n));
+                if r.chance(1, 2) { kids.push(SNode::Text(if r.chance(1, 2) { "\n ".into() } else { "r".into() })); }
+                n = SElem { prefix, local: LOCALS[i % LOCALS.len()].to_string(), decls, attrs, kids };
+            }
+            n
+        }
+        1 => {
+            // wide: 20 … 48 children
+            let width = 20 + r.below(29);
+            let mut kids: Vec<SNode> = vec![];
+            for i in 0..width {
+                let prev_text = matches!(kids.last(), Some(SNode::Text(_)));
+                kids.push(match r.below(4) {
+                    0 if !prev_text => SNode::Text(format!("t{}", i)),
+                    1 => { let mut e = leaf("b"); e.kids = vec![SNode::Elem(leaf("c")), SNode::Text("x".into())]; SNode::Elem(e) }
+                    2 => SNode::Comment(format!("c{}", i)),
+                    _ => SNode::Elem(leaf(LOCALS[i % LOCALS.len()])),
+                });
+            }
+            let mut e = leaf("a"); e.kids = kids; e
+        }
+        2 => {
+            // 13 … 24 attributes and as many declarations on one element; a prefixed attribute through one of them
+            let n = 13 + r.below(12);
+            let decls: Vec<(String, String)> = (0..n).map(|i| (format!("x{}", i), format!("urn:x{}", (i * 7) % 24))).collect();
+            let mut attrs: Vec<SAttr> = (0..n).map(|i| SAttr { prefix: String::new(), local: format!("k{}", i), value: format!("v{}", i) }).collect();
+            attrs.push(SAttr { prefix: format!("x{}", n - 1), local: "k".into(), value: "last".into() });
+            let mut inner = leaf("b"); inner.attrs = attrs.iter().rev().filter(|a| a.prefix.is_empty()).cloned().collect(); inner.kids = vec![SNode::Text("x".into())];
+            SElem { prefix: format!("x{}", n / 2), local: "a".into(), decls, attrs, kids: vec![SNode::Elem(inner), SNode::Elem(leaf("c"))] }
+        }
+        _ => {
+            // long character data
+            let mut e = leaf("a");
+            e.attrs = vec![SAttr { prefix: String::new(), local: "x".into(), value: gen_string(r, 40, 120) }];
+            e.kids = vec![SNode::Text(gen_string(r, 40, 200)), SNode::Elem(leaf("b")), SNode::Text(gen_string(r, 30, 60))];
+            e
+        }
+    };
+    SDoc { top: vec![SNode::Elem(el)], fragment }
+}
+
 pub fn gen_doc(r: &mut Rng, fragment: bool) -> SDoc {
+    // one document in sixteen is large in one dimension
+    if r.chance(1, 16) {
+        return gen_big_doc(r, fragment);
+    }
     let o = GenOpts { max_depth: 1 + r.below(5), max_kids: 1 + r.below(4), budget: 2 + r.below(30) };
     let mut budget = o.budget;
     let mut ids = vec![];
